@@ -97,7 +97,8 @@ def window_orders(n, rng):
     for i in range(1, n - 1, 2):
         sw[i], sw[i + 1] = sw[i + 1], sw[i]
     dup = ident[:]
-    dup.insert(min(n, 2 + rng.randrange(max(1, n - 1))), 1 + rng.randrange(n))
+    x = 1 + rng.randrange(n)
+    dup.insert(x + rng.randrange(n - x + 1), x)          # a second copy at or after the first
     rot = ident[:]
     for i in range(1, n - 2, 3):
         rot[i], rot[i + 1], rot[i + 2] = rot[i + 2], rot[i], rot[i + 1]
@@ -115,7 +116,6 @@ def extra_scenarios(ctx, P, start):
 
     def add(codec, c, mode, limit, rate, s0, units, orders_of, maxlist=None, base=0):
         ks = [npk(c, u["n"], limit) for u in units]
-        lal_n = sum(ks if c != "aac" else [1] * len(ks))
         n = sum(ks)
         mx = maxlist or (max(ks) + 3)
         groups = [units] if mode == "avcc" else [[u] for u in units]
@@ -127,9 +127,13 @@ def extra_scenarios(ctx, P, start):
     limits = [1200] if ctx.quick else [1200, 1400, 500]
     for limit in limits:
         sizes = [1, 2, 3, 4, limit - 1, limit, limit + 1, 2 * limit - 5, 2 * limit - 4, 2 * limit - 3, 2 * limit - 2, 2 * limit - 1,
-                 2 * limit, 2 * limit + 1, 3 * limit - 7, 3 * limit - 6, 3 * limit - 5, 3 * limit, 65535, 65536, 307200]
-        if not ctx.quick:
-            sizes += [4 * limit - 9, 4 * limit - 8, 4 * limit - 7, 10 * limit, 102400, 307199, 307201]
+                 2 * limit, 2 * limit + 1, 3 * limit - 7, 3 * limit - 6, 3 * limit - 5, 3 * limit]
+        # big units: validation cost grows with the square of the packet count (about 6 s for 257 packets)
+        if ctx.quick:
+            sizes += [65536, 307200]
+        else:
+            sizes += [4 * limit - 9, 4 * limit - 8, 4 * limit - 7, 10 * limit]
+            sizes += {1200: [65535, 65536, 102400, 307199, 307200, 307201], 1400: [65536, 307200], 500: [65536, 102400]}[limit]
         for c in ("avc", "hevc"):
             for n in sizes:
                 if n < HB[c]:
@@ -138,7 +142,7 @@ def extra_scenarios(ctx, P, start):
                 u = {"h": P.header(c, k, False), "n": n, "id": 257}
                 tail = {"h": P.header(c, 1, False), "n": 5, "id": 514}
                 s0 = P.nxt("xs0", [65535, 0, 65533, 65536 - k, 65537 - k, 32768 - k // 2, 7])
-                orders = (lambda m: window_orders(m, rng)) if n < 60000 or not ctx.quick else (lambda m: window_orders(m, rng)[:2])
+                orders = (lambda m: window_orders(m, rng)) if n < 60000 else (lambda m: window_orders(m, rng)[:2])
                 add(c, c, "nalu", limit, 90000, s0 % 65536, [u, tail], orders, base=P.nxt("base", BASES))
         for n in [1, 2, 3, limit - 5, limit - 4, limit - 3, limit, 2 * (limit - 4), 2 * (limit - 4) + 1, 8191]:
             u = {"h": [], "n": n, "id": 257}
@@ -260,7 +264,7 @@ def run(ctx):
     ctx.log("%s: %d (unit sizes x first seq x arrival order x duplicate) cases, PackerOK/Prefix/Lossless/WinSound hold on all"
             % (cfg, len(acts)))
     # execute a seeded sample of the enumerated cases: all "shapes" (codec, sizes, order) at least once per first-seq class
-    want = 3000 if ctx.quick else 60000
+    want = 6000 if ctx.quick else 60000
     ctx.rng.shuffle(acts)
     acts = acts[:want]
     P = Pools(ctx.rng)
@@ -268,6 +272,7 @@ def run(ctx):
     ntlc = len(scen)
     extra = extra_scenarios(ctx, P, len(scen))
     # spread the (heavier) extra scenarios evenly so that the validation shards are balanced
+    ctx.rng.shuffle(extra)
     step = max(1, len(scen) // max(1, len(extra)))
     merged = []
     for i, s in enumerate(scen):
